@@ -199,6 +199,20 @@ except Exception as e:  # noqa
     cps = None
 
 try:
+    import extract_render
+    try:
+        rns = extract_render.extract(open(os.path.join(src, 'viz', 'mermaid', 'network.py')).read(),
+                                     open(os.path.join(src, 'viz', 'mermaid', 'gantt.py')).read())
+        ok.append('render_src')
+    except Exception as e:  # noqa
+        rns = extract_render.pinned()
+        miss.append(f'render_src: {e}')
+    vals['render_src'] = rns
+except Exception as e:  # noqa
+    miss.append(f'extract_render: {e}')
+    rns = None
+
+try:
     import extract_csv
     try:
         cvs = extract_csv.extract(open(os.path.join(src, 'io', 'csv_io.py')).read(),
@@ -269,6 +283,8 @@ if fs is not None:
     write_if_changed(os.path.join(lean, 'PjVerif', 'Extracted', 'FacadeSrc.lean'), extract_facade.to_lean(fs))
 if cps is not None:
     write_if_changed(os.path.join(lean, 'PjVerif', 'Extracted', 'CritPathSrc.lean'), extract_critpath.to_lean(cps))
+if rns is not None:
+    write_if_changed(os.path.join(lean, 'PjVerif', 'Extracted', 'RenderSrc.lean'), extract_render.to_lean(rns))
 if cvs is not None:
     write_if_changed(os.path.join(lean, 'PjVerif', 'Extracted', 'CsvSrc.lean'), extract_csv.to_lean(cvs))
 if prs is not None:
